@@ -40,7 +40,7 @@ import signal
 import warnings
 
 import core  # noqa: F401
-from rdflib import RDF, BNode, Dataset, Graph, Literal, URIRef
+from rdflib import RDF, BNode, ConjunctiveGraph, Dataset, Graph, Literal, URIRef
 from rdflib.collection import Collection
 
 warnings.filterwarnings("ignore", category=DeprecationWarning)
@@ -50,9 +50,13 @@ LEAN_TARGETS = ["RV.C19.Props", "RV.C19.Audit"]
 AUDIT = "RV/C19/Audit.lean"
 DRIVER = "drv_c19"
 CASES = {"quick": 1400, "thorough": 40000, "search": 20000}
+CASE_TIMEOUT_S = 4       # a case is a few ms of work; the watchdog only ever fires on a loop that never ends
 RULE = ("(round g: after every op also list(g.items(head)), the text of c.n3() and its read-back by the Turtle parser; "
         "16 % of the cases run the history on a graph that also holds a second collection, disjoint or linked into a cell "
-        "of the first, and stray list triples: own footprint, foreign triples untouched, second list) "
+        "of the first (its triples stored before or after the first list's own; deletions at the shared cell), and stray list "
+        "triples: own footprint, foreign triples untouched, second list; graph kinds now include the Dataset / "
+        "ConjunctiveGraph object itself; += operands include another Collection object over the same head, over a tail "
+        "of the list, over rdf:nil, over the other list of the graph) "
         "histories (1-12 ops) of append / += (operand as list, tuple, generator, iter(list), map, dict keys view, "
         "another Collection, the collection itself) / Collection(g, head, seq) re-opened on the list in mid-history / "
         "item assignment / item deletion / clear on Collection(g, head) from "
@@ -99,9 +103,14 @@ _T = list(_terms("b").values())
 assert len(set(_T)) == len(_T) and all(a != b for i, a in enumerate(_T) for b in _T[i + 1:])
 
 
+GRAPH_KINDS = ["mem", "mem", "simple", "ds", "dsobj", "dsunion", "cg"]
+
+
 def _graph(kind):
-    """the graph the collection lives in: plain Graph over Memory, Graph over SimpleMemory, or a named graph
-    of a Dataset whose other graphs hold a decoy list under the same head (must stay untouched)"""
+    """the graph the collection lives in: plain Graph over Memory, Graph over SimpleMemory, a named graph
+    of a Dataset whose other graphs hold a decoy list under the same head (must stay untouched), or (round g2) the
+    Dataset / ConjunctiveGraph OBJECT ITSELF (`Collection(ds, head)`, `ds.collection(head)`): its add() writes to the
+    default context, its remove() removes from every context"""
     if kind == "simple":
         return Graph(store="SimpleMemory"), None
     if kind == "ds":
@@ -112,6 +121,12 @@ def _graph(kind):
                 other.add((hd, RDF.first, Literal("decoy")))
                 other.add((hd, RDF.rest, RDF.nil))
         return g, ds
+    if kind == "dsobj":
+        return Dataset(), None
+    if kind == "dsunion":
+        return Dataset(default_union=True), None
+    if kind == "cg":
+        return ConjunctiveGraph(), None
     return Graph(), None
 
 
@@ -119,6 +134,23 @@ def _decoy_ok(ds):
     if ds is None:
         return True
     return all(len(c) == 4 for c in (ds.graph(URIRef("http://e/other")), ds.default_context))
+
+
+def _stray_contexts(g):
+    """for a Dataset / ConjunctiveGraph object: statements that ended up outside the default context"""
+    if not isinstance(g, ConjunctiveGraph):
+        return []
+    dflt = g.default_context.identifier
+    return [q for q in g.quads((None, None, None, None))
+            if q[3] is not None and (q[3].identifier if isinstance(q[3], Graph) else q[3]) != dflt]
+
+
+def _cell_at(g, head, k):
+    """the k-th cell of the chain by plain triple lookups (rdf:nil after the last)"""
+    cur = head
+    for _ in range(k):
+        cur = next(g.objects(cur, RDF.rest))
+    return cur
 
 
 SHAPES = ["list", "tuple", "gen", "iter", "map", "dictkeys", "coll"]
@@ -192,6 +224,9 @@ def _gen_hist(rng, tier):
         elif r < 0.36:
             if rng.random() < 0.12 and n <= 8:
                 ops.append(["iaddself"]); n += n
+            elif rng.random() < 0.1 and n <= 8:
+                k = rng.choice([0, 0, 1, 1, 2, 3, n, n + 1])
+                ops.append(["iaddview", k]); n += n - min(k, n)
             else:
                 sh = rng.choice(SHAPES)
                 xs = _eff([_member(rng, voc) for _ in range(rng.choice([0, 1, 1, 2, 3]))], sh)
@@ -219,7 +254,7 @@ def _gen_hist(rng, tier):
         ops.append(["set", n, _member(rng, voc)])
     absent = [m for m in MEMBERS if m not in voc]
     probe = sorted(set(voc[:6] + ([rng.choice(absent)] if absent else [])))
-    return {"kind": "hist", "head": head, "g": rng.choice(["mem", "mem", "simple", "ds"]),
+    return {"kind": "hist", "head": head, "g": rng.choice(GRAPH_KINDS),
             "init": {"mode": mode, "items": items, "shape": shape0}, "extra": extra, "ops": ops, "probe": probe}
 
 
@@ -269,7 +304,7 @@ def _gen_broken(rng, tier):
     reads += [["index", x] for x in voc + [absent]] + [["contains", x] for x in voc + [absent]]
     reads.append(["ext"])
     rng.shuffle(reads)
-    gk = "mem" if shape in ("two-rests", "two-firsts") else rng.choice(["mem", "mem", "simple", "ds"])
+    gk = "mem" if shape in ("two-rests", "two-firsts") else rng.choice(GRAPH_KINDS)
     return {"kind": "broken", "head": rng.choice(["b", "u"]), "g": gk, "shape": shape, "triples": dedup,
             "reads": reads}
 
@@ -286,7 +321,7 @@ def _gen_two(rng, tier):
     n1 = len(case["init"]["items"])
     voc = case["probe"] or list(MEMBERS)
     items2 = [rng.choice(voc) for _ in range(rng.choice([1, 1, 2, 3]))]
-    share = rng.randrange(n1) if n1 and rng.random() < 0.6 else None
+    share = (rng.randrange(1, n1) if n1 > 1 and rng.random() < 0.7 else rng.randrange(n1)) if n1 and rng.random() < 0.6 else None
     junk = []
     if rng.random() < 0.4:
         junk.append([JUNK, FIRST, rng.choice(voc)])
@@ -297,7 +332,17 @@ def _gen_two(rng, tier):
             junk.append([JUNK, REST, HEAD + rng.randrange(n1)])          # points into the first collection
         if rng.random() < 0.3:
             junk.append([JUNK + 2, 5, HEAD])
-    case["second"] = {"items": items2, "share": share, "junk": junk}
+    case["second"] = {"items": items2, "share": share, "junk": junk, "first": rng.random() < 0.5}
+    if share is not None and rng.random() < 0.6:
+        # a deletion AT the first shared cell (positive or negative index), while the list still has its start length
+        ops.insert(0, ["del", share if rng.random() < 0.5 else share - n1])
+    if share is None and rng.random() < 0.4:
+        ops.insert(rng.randrange(len(ops) + 1), ["iaddother", list(items2)])
+    l = list(case["init"]["items"])          # the inserted ops shift the lengths: keep C19-K1 (set at index len) out
+    for op in ops:
+        if op[0] == "set" and op[1] == len(l):
+            op[1] = len(l) + 1
+        l, _ = _apply(l, op)
     return case
 
 
@@ -434,7 +479,7 @@ def _second(g, T, rev, fset, sec, f0, viol, where, stats):
     c2 = Collection(g, T[HEAD2])
     k, v = _call(lambda: list(c2))
     k2, n = _call(lambda: len(c2))
-    ft = sorted((rev.get(s, 999), rev.get(p, 999), rev.get(o, 999)) for s, p, o in g if s in fset)
+    ft = sorted((rev.get(s, 999), rev.get(p, 999), rev.get(o, 999)) for s, p, o in g.triples((None, None, None)) if s in fset)
     if ft != f0:
         viol.append(f"frame2: {where}: triples of another collection / stray list triples changed: {f0} -> {ft}")
     if sec["share"] is None and (k != "ok" or [rev.get(x, 999) for x in v] != sec["items"]):
@@ -507,6 +552,10 @@ def _run_hist(case):
         g.add((T[s], T[p], T[o]))
     extra0 = sorted(tuple(t) for t in case["extra"])
     obs, viol = [], []
+    sec = case.get("second")
+    if sec and sec.get("first"):            # the other list's triples are in the store BEFORE this list's own
+        for s_, p_, o_ in _second_triples(sec):
+            g.add((T[s_], T[p_], T[o_]))
     if case["init"]["mode"] == "ctor":
         shape0 = case["init"].get("shape", "list")
         items = _eff(items, shape0)
@@ -521,7 +570,7 @@ def _run_hist(case):
         c = g.collection(head) if len(case["ops"]) % 2 else Collection(g, head)
         obs.append("ok")
     l = list(items)
-    sec, fset, f0 = case.get("second"), (), []
+    fset, f0 = (), []
     if sec:
         for s_, p_, o_ in _second_triples(sec):
             g.add((T[s_], T[p_], T[o_]))
@@ -536,7 +585,7 @@ def _run_hist(case):
     obs.append(_ext(c, g, head, T, rev, l, viol, "at start", seen, stats))
     if sec:
         stats.update({"two": 1, "two_shared" if sec["share"] is not None else "two_disjoint": 1,
-                      "two_junk": int(bool(sec["junk"]))})
+                      "two_junk": int(bool(sec["junk"])), "two_foreign_first": int(bool(sec.get("first")))})
         obs.append(_second(g, T, rev, fset, sec, f0, viol, "at start", stats))
     for j, op in enumerate(case["ops"]):
         kind = op[0]
@@ -560,6 +609,28 @@ def _run_hist(case):
             def f():
                 nonlocal c
                 c += c
+            k, _ = _call(f)
+        elif kind == "iaddview":
+            # the operand is ANOTHER Collection object reading this very list lazily: over the same head (k = 0),
+            # over its k-th cell (a tail of it), over rdf:nil (k = len)
+            kk = min(op[1], n)
+            xs = l[kk:]
+            cell = _cell_at(g, head, kk)
+            view = g.collection(cell) if op[1] % 2 else Collection(g, cell)
+            l += xs
+            stats["iaddview_" + ("head" if kk == 0 else "nil" if kk == n else "tail")] = 1
+
+            def f():
+                nonlocal c
+                c += view
+            k, _ = _call(f)
+        elif kind == "iaddother":
+            # the operand is the other (disjoint) collection living in the same graph
+            l += op[1]
+
+            def f():
+                nonlocal c
+                c += Collection(g, T[HEAD2])
             k, _ = _call(f)
         elif kind == "ctor":
             xs = _eff(op[1], _shape(op))
@@ -607,6 +678,10 @@ def _run_hist(case):
             obs.append(_second(g, T, rev, fset, sec, f0, viol, f"after op {j} {op}", stats))
     if not _decoy_ok(ds):
         viol.append("frame: the same head's list in another graph of the dataset was touched")
+    stray = _stray_contexts(g)
+    if stray:
+        viol.append(f"context: {len(stray)} statement(s) written through the Dataset/ConjunctiveGraph object ended up "
+                    f"outside its default context, e.g. {[rev.get(x, 999) for x in stray[0][:3]]}")
     if any(x in FALSY for x in items) or any(x in FALSY for op in case["ops"] for x in
                                              (op[1] if op[0] in ("iadd", "ctor") else op[1:])):
         stats["falsy_member"] = 1
@@ -662,7 +737,7 @@ def _run_broken(case):
         full = r[0] in ("len", "iter") or (r[0] in ("index", "contains") and r[1] not in firsts)
         if cyclic and full and k == "ok":
             viol.append(f"cyclic-no-raise: {r} on a cyclic chain returned {obs[-1]} instead of raising")
-    after = sorted((rev.get(s, 999), rev.get(p, 999), rev.get(o, 999)) for s, p, o in g)
+    after = sorted((rev.get(s, 999), rev.get(p, 999), rev.get(o, 999)) for s, p, o in g.triples((None, None, None)))
     if after != before or not _decoy_ok(ds):
         viol.append("read-mutates: reads changed the graph")
     return {"obs": obs, "viol": viol, "nontrivial": raised,
@@ -701,6 +776,13 @@ def model_lines(case):
         return lines
     for t in case["extra"]:
         lines.append("t " + " ".join(map(str, t)))
+    sec = case.get("second")
+    ft = []
+    for t in (_second_triples(sec) if sec else []):
+        if t not in ft:
+            ft.append(t)
+    if sec and sec.get("first"):
+        lines += [f"foreign {FOREIGN[0]} {FOREIGN[1]}"] + ["t " + " ".join(map(str, t)) for t in ft]
     items = case["init"]["items"]
     if case["init"]["mode"] == "ctor":
         items = _eff(items, case["init"].get("shape", "list"))
@@ -709,12 +791,7 @@ def model_lines(case):
         for t in _chain([HEAD + k for k in range(len(items))], items):
             lines.append("t " + " ".join(map(str, t)))
         lines.append("nop")
-    sec = case.get("second")
-    if sec:
-        ft = []
-        for t in _second_triples(sec):
-            if t not in ft:
-                ft.append(t)
+    if sec and not sec.get("first"):
         lines[-1:-1] = [f"foreign {FOREIGN[0]} {FOREIGN[1]}"] + ["t " + " ".join(map(str, t)) for t in ft]
     l = list(items)
     lines.append(_snapline(len(l), case["probe"]))
@@ -730,6 +807,11 @@ def model_lines(case):
             l += xs; lines.append("iadd " + " ".join(map(str, xs)))
         elif op[0] == "iaddself":
             lines.append("iadd " + " ".join(map(str, l))); l += l
+        elif op[0] == "iaddview":       # snapshot semantics: what the view reads at that moment
+            xs = l[min(op[1], n):]
+            lines.append("iadd " + " ".join(map(str, xs))); l += xs
+        elif op[0] == "iaddother":
+            lines.append("iadd " + " ".join(map(str, op[1]))); l += op[1]
         elif op[0] == "ctor":
             xs = _eff(op[1], _shape(op))
             l += xs; lines.append(_ctor_line(xs, _shape(op)))
@@ -796,6 +878,8 @@ def shrink(case):
             yield {**case, "ops": ops[:i] + ops[i + 1:]}
         if sec["junk"]:
             yield {**case, "second": {**sec, "junk": sec["junk"][:-1]}}
+        if sec.get("first"):
+            yield {**case, "second": {**sec, "first": False}}
         if len(sec["items"]) > 1:
             yield {**case, "second": {**sec, "items": sec["items"][1:]}}
         if sec["share"] is None:
@@ -855,6 +939,10 @@ def _apply(l, op):
         return l + _eff(op[1], _shape(op)), True
     if op[0] == "iaddself":
         return l + l, True
+    if op[0] == "iaddview":
+        return l + l[min(op[1], n):], True
+    if op[0] == "iaddother":
+        return l + list(op[1]), True
     if op[0] == "clear":
         return [], True
     if not -n <= op[1] < n:
